@@ -45,25 +45,75 @@ class Lab:
 
     # ---------------------------------------------------------------- build
     def build(self, targets=("squid",), timeout=3000):
-        """rsync /repo to the scratch tree, touch edited sources, make. Raises LabError with the log tail."""
+        """Build squid from /repo's CURRENT working tree in a scratch copy outside /repo and /verif.
+        The copy is keyed by the exact source state (HEAD + uncommitted diff + untracked sources) and shared by
+        concurrent / consecutive checks of the same state (flock); copies of other source states and copies not
+        used for 90 minutes are removed. VERIF_PRIVATE_BUILD=1 forces a private copy removed on exit.
+        Raises LabError with the log tail."""
+        import fcntl, hashlib
         t0 = time.time()
-        rc, o, e = sh(["rsync", "-a", "--exclude", ".git", REPO + "/", self.tree + "/"], timeout=600)
-        if rc != 0:
-            raise LabError("rsync failed: " + e[-500:])
-        # sources modified relative to HEAD (or untracked sources): make sure they are newer than their objects
-        rc, o, e = sh(["git", "-C", REPO, "status", "--porcelain", "--untracked-files=no"], timeout=60)
-        for line in o.splitlines():
-            f = line[3:].strip()
-            p = os.path.join(self.tree, f)
-            if os.path.isfile(p):
-                os.utime(p, None)
-        rc, o, e = sh(["make", "-j16"], cwd=self.tree, timeout=timeout)
-        self.build_log = (o + e)[-6000:]
-        if rc != 0 or not os.path.exists(os.path.join(self.tree, "src", "squid")):
-            raise LabError("squid no longer builds from /repo's working tree:\n" + self.build_log[-2500:])
+        rc0, head, e = sh(["git", "-C", REPO, "rev-parse", "HEAD"], timeout=60)
+        rc, diff, e = sh(["git", "-C", REPO, "diff", "HEAD", "--", "."], timeout=120)
+        rc, st, e = sh(["git", "-C", REPO, "status", "--porcelain", "--untracked-files=no"], timeout=60)
+        key = hashlib.sha256((head + "\0" + diff + "\0" + st).encode("utf-8", "replace")).hexdigest()[:16]
+        private = bool(os.environ.get("VERIF_PRIVATE_BUILD")) or rc0 != 0 or rc != 0   # no git info: never share
+        root = os.path.join(SCRATCH_ROOT, "squid-verif-build")
+        os.makedirs(root, exist_ok=True)
+        os.chmod(root, 0o755)
+        if private:
+            self.tree = os.path.join(self.dir, "tree")
+            self._build_into(self.tree, st, timeout)
+        else:
+            self.tree = os.path.join(root, key)
+            lockf = open(os.path.join(root, ".lock-" + key), "w")
+            try:
+                fcntl.flock(lockf, fcntl.LOCK_EX)
+                marker = os.path.join(self.tree, ".verif-build-ok")
+                if not os.path.exists(marker):
+                    shutil.rmtree(self.tree, ignore_errors=True)
+                    self._build_into(self.tree, st, timeout)
+                    with open(marker, "w") as f:
+                        f.write(key)
+                os.utime(marker, None)
+                # drop stale copies (other source states unused for 90 min)
+                now = time.time()
+                for d in os.listdir(root):
+                    p = os.path.join(root, d)
+                    if d.startswith(".") or p == self.tree or not os.path.isdir(p):
+                        continue
+                    m = os.path.join(p, ".verif-build-ok")
+                    try:
+                        age = now - os.path.getmtime(m)
+                    except OSError:
+                        age = now - os.path.getmtime(p)
+                    if age > 5400:
+                        shutil.rmtree(p, ignore_errors=True)
+                        try:
+                            os.unlink(os.path.join(root, ".lock-" + d))
+                        except OSError:
+                            pass
+            finally:
+                fcntl.flock(lockf, fcntl.LOCK_UN)
+                lockf.close()
         self.built = True
         self.build_s = time.time() - t0
         return os.path.join(self.tree, "src", "squid")
+
+    def _build_into(self, tree, status_porcelain, timeout):
+        rc, o, e = sh(["rsync", "-a", "--delete", "--exclude", ".git", REPO + "/", tree + "/"], timeout=900)
+        if rc != 0:
+            raise LabError("rsync failed: " + e[-500:])
+        # sources modified relative to HEAD: make sure they are newer than their objects
+        for line in status_porcelain.splitlines():
+            f = line[3:].strip()
+            p = os.path.join(tree, f)
+            if os.path.isfile(p):
+                os.utime(p, None)
+        rc, o, e = sh(["make", "-j16"], cwd=tree, timeout=timeout)
+        self.build_log = (o + e)[-6000:]
+        if rc != 0 or not os.path.exists(os.path.join(tree, "src", "squid")):
+            shutil.rmtree(tree, ignore_errors=True)
+            raise LabError("squid no longer builds from /repo's working tree:\n" + self.build_log[-2500:])
 
     # ---------------------------------------------------------------- origin
     def origin(self, **kw):
